@@ -525,7 +525,7 @@ func c16Run(t *testing.T, mode string, r *kit.Result, seed int64) {
 func TestVerif_C16_Faults(t *testing.T) {
 	t.Parallel() // the three monitors share nothing but the read-only scenario definitions
 	seed := kit.Seed(16)
-	r := kit.NewResult(t, "c16-faults", seed, "for each scenario (revocation through every route, under manual and auto+delta rebuild, of a bring-your-own certificate, of an intermediate issuer, with the issuer removed, re-revocation; crl/rotate; tidy removing an expired entry; re-enabling CRL building; auto->manual; plus generated history prefixes followed by one more revocation) every storage operation the target performs fails once (named structurally: n-th op of a key class); the client retries until success is reported; the oracle runs after the fault, after the retry and after a follow-up rotation, fresh revocation, issuer re-import, switch to manual rebuild and restart; a case is one (scenario, fault point) and is non-trivial when the fault actually fired inside the target operation")
+	r := kit.NewResult(t, "c16-faults", seed, "scenarios = operation x CRL configuration mode (manual, auto_rebuild, auto_rebuild+delta; under the auto modes revocations are pending when the operation starts): revocation through every route, of a bring-your-own certificate, of an intermediate issuer, with the issuer removed, re-revocation (also of a still unpublished serial); crl/rotate, crl/rotate-delta; tidy removing an expired entry; config/crl writes: disable on/off, auto->manual (partial and full write), manual->auto(+delta), delta on/off, expiry change; plus generated history prefixes followed by one more revocation, a rotation or a configuration write. Every storage operation the target performs fails once (named structurally: n-th op of a key class; quick tier: all points of the manual-mode and generated scenarios, one in three auto-mode variants of the mode-independent operations, every other point of an auto-mode variant chosen by seed parity); the client retries until success is reported; the oracle (see c16-histories) runs after the fault, after the retry and after a follow-up rotation, fresh revocation, repeated revocation, second rotation (auto modes), issuer re-import, switch to manual rebuild and restart; a case is one (scenario, fault point) and is non-trivial when the fault actually fired inside the target operation")
 	defer r.Write(t)
 	c16Run(t, "fault", r, seed)
 	_, shards := kit.Shard()
@@ -550,7 +550,7 @@ func TestVerif_C16_Faults(t *testing.T) {
 func TestVerif_C16_Crash(t *testing.T) {
 	t.Parallel() // the three monitors share nothing but the read-only scenario definitions
 	seed := kit.Seed(16)
-	r := kit.NewResult(t, "c16-crash", seed, "for each scenario of the fault monitor the target's storage writes are journalled in a dry run; for every prefix of that write sequence (including none and all) the prefix is applied to a copy of the store, a new backend instance is created on it (Factory + Initialize), the oracle checks that earlier revocations survived, the client retries the operation until success is reported, and the oracle runs again, also after a follow-up rotation, fresh revocation, issuer re-import, switch to manual rebuild and another restart; a case is one (scenario, write prefix) and is non-trivial when the cut lies strictly inside the write sequence")
+	r := kit.NewResult(t, "c16-crash", seed, "for each scenario of the fault monitor (all operations under all three CRL configuration modes: manual, auto_rebuild, auto_rebuild+delta) the target's storage writes are journalled in a dry run; for every prefix of that write sequence (including none and all) the prefix is applied to a copy of the store, a new backend instance is created on it (Factory + Initialize), config/crl is read back, the oracle checks that earlier revocations survived and reads the served CRLs, the client retries the operation until success is reported, and the oracle runs again, also after a follow-up rotation, a fresh revocation, its repetition, a second rotation under auto-rebuild (a changed complete CRL must carry a strictly larger number than any served before, across the crash), issuer re-import, switch to manual rebuild and another restart; a case is one (scenario, write prefix) and is non-trivial when the cut lies strictly inside the write sequence")
 	defer r.Write(t)
 	c16Run(t, "crash", r, seed)
 	_, shards := kit.Shard()
